@@ -24,25 +24,56 @@ Definition DG (n : N) (sz : Z) : digest := (H32 n, sz).
 Example H32_example : H32 53253 = "0000000000000000000000000000d005".
 Proof. vm_compute. reflexivity. Qed.
 
+(* What the harness's stateless handle allocator was given: the digest
+   function enum and instance name the digest keys are made with, (leaf,
+   token) for every leaf created through it, and the distinct identity
+   byte strings, indexed by token. *)
+Record idinfo := mkIds {
+  id_fn : string; id_inst : string;
+  id_idents : list (nat * N); id_tab : list (list N) }.
+
 Inductive case :=
-| mkCase (c : cas) (b : blobs) (ops : list op) (outs : list out)
+| mkCase (c : cas) (b : blobs) (ops : list op) (outs : list out) (ids : idinfo)
 | mkCacheCase (st : cstore) (fmt : bool) (maxc : nat) (maxs : Z) (ops : list cop) (outs : list cout).
 
-Fixpoint viol_from (c : cas) (b : blobs) (i : nat) (g : mon) (ops : list op) (outs : list out) : verdict :=
+(* P: [p_step], then [p_ident] on what this step taught the monitor (the
+   step index of an identity violation is the step at which the second leaf
+   of the offending pair became known). *)
+Fixpoint viol_from (c : cas) (b : blobs) (idents : list (nat * N)) (i : nat) (g : mon)
+    (ops : list op) (outs : list out) : verdict :=
   match ops, outs with
   | o :: ops', x :: outs' =>
     let '(k, g') := p_step c b g o x in
-    if String.eqb k "" then viol_from c b (S i) g' ops' outs' else VViolation i k
+    if String.eqb k "" then
+      let k' := p_ident idents g g' in
+      if String.eqb k' "" then viol_from c b idents (S i) g' ops' outs' else VViolation i k'
+    else VViolation i k
   | [], [] => VOk
   | _, _ => VMismatch i "malformed case"
   end.
 
-Fixpoint mism_from (c : cas) (b : blobs) (i : nat) (s : state) (ops : list op) (outs : list out) : verdict :=
+Fixpoint idents_eqb (a b : list (nat * N)) : bool :=
+  match a, b with
+  | [], [] => true
+  | (l, t) :: a', (m, u) :: b' => Nat.eqb l m && N.eqb t u && idents_eqb a' b'
+  | _, _ => false
+  end.
+
+(* The bytes the model says casFileID.WriteTo writes for each leaf, and the
+   tokens, against what the allocator of the harness received. *)
+Definition ident_mism (ids : idinfo) (i : nat) (s : state) : verdict :=
+  let '(mi, mt) := model_idents (id_fn ids) (id_inst ids) s in
+  if negb (list_eqb bytes_eqb mt (id_tab ids)) then VMismatch (pred i) "handle-identity-bytes"
+  else if negb (idents_eqb mi (id_idents ids)) then VMismatch (pred i) "handle-identity-tokens"
+  else VOk.
+
+Fixpoint mism_from (c : cas) (b : blobs) (ids : idinfo) (i : nat) (s : state) (ops : list op) (outs : list out) : verdict :=
   match ops, outs with
   | o :: ops', x :: outs' =>
     let '(s', y) := step c b s o in
     let d := out_diff x y in
-    if String.eqb d "" then mism_from c b (S i) s' ops' outs' else VMismatch i d
+    if String.eqb d "" then mism_from c b ids (S i) s' ops' outs' else VMismatch i d
+  | [], [] => ident_mism ids i s
   | _, _ => VOk
   end.
 
@@ -66,8 +97,8 @@ Fixpoint cmism_from (st : cstore) (fmt : bool) (maxc : nat) (maxs : Z) (i : nat)
 
 Definition check_case (k : case) : verdict :=
   match k with
-  | mkCase c b ops outs =>
-    vcombine (viol_from c b 0 mon_init ops outs) (mism_from c b 0 init ops outs)
+  | mkCase c b ops outs ids =>
+    vcombine (viol_from c b (id_idents ids) 0 mon_init ops outs) (mism_from c b ids 0 init ops outs)
   | mkCacheCase st fmt maxc maxs ops outs =>
     vcombine (cviol_from st fmt 0 ops outs) (cmism_from st fmt maxc maxs 0 [] ops outs)
   end.
